@@ -1,5 +1,5 @@
 """property id -> (spec, harness group)"""
-from . import props_alg, props_alias, props_lin, props_est, props_eig, props_sim, props_tm, props_rand
+from . import props_alg, props_alias, props_lin, props_est, props_eig, props_sim, props_tm, props_rand, props_text
 
 SPECS = {}
 for pid, spec in props_alg.SPECS.items():
@@ -18,4 +18,6 @@ for pid, spec in props_tm.SPECS.items():
     SPECS[pid] = (spec, props_tm.GROUP)
 for pid, spec in props_rand.SPECS.items():
     SPECS[pid] = (spec, props_rand.GROUP)
+for pid, spec in props_text.SPECS.items():
+    SPECS[pid] = (spec, props_text.GROUP)
 NOT_CLAIMED = {}
